@@ -934,8 +934,8 @@ def build_principal(free):
     return d
 
 
-@obligation(P, 'O7b.stress_commit_invariant_principal', tiers=('thorough',), cap=400)
-def o7b(h):
+# NOT registered (see DESIGNED_NOT_REGISTERED): discharges in isolation but without headroom (the identity link needs 40-60+ s of z3 core, unknown under load)
+def o7b_not_registered(h):
     """stress (derivative of the energy density with respect to the displacement gradient) before and after commit differ by
     exactly r(x) * d(eqps')/d(dispGrad), whose entries are below 1 in modulus: equal to the solver tolerance. Principal frame only."""
     _common(h)
@@ -964,13 +964,16 @@ def o7b(h):
            when=v_and(q.g, q.nz0), name='closed_form', scale=q.Y0)], cap=300, order=('nlsat', 'core'), use_facts=False)
     ch.link('stress.direction', lambda q: [Le([v_sq(n) for n in flat(q.ax['N0'])], C_FLOW * C_FLOW * (1 + 1e-12), when=q.nz0, name='entries_bounded', scale=1.0)],
             cap=200, use_facts=False)
+    tab = lambda q: (_table_all(q) + [('S0_%d' % j, flat(q.ax['S0'])[j]) for j in range(9)] + [('S1_%d' % j, flat(q.ax['S1'])[j]) for j in range(9)]
+                     + [('G_%d' % j, flat(q.ax['G'])[j]) for j in range(9)] + [('N_%d' % j, flat(q.ax['N0'])[j]) for j in range(9)])
     for k in range(9):
+        ch.close('principal.sensitivity_bounded[%d%d]' % (k // 3, k % 3), lambda q, k=k: Le(v_abs(flat(q.ax['G'])[k]), 1.0, when=v_and(q.g, q.nz0), name='', scale=1.0),
+                 cap=120, order=('nlsat', 'core'), table=tab)
+
         def goal(q, k=k):
             d = v_sub(flat(q.ax['S0'])[k], flat(q.ax['S1'])[k])
             return Le(v_abs(d), q.tolY, when=q.g, name='', scale=q.Y0)
-        ch.close('principal.stress_within_tolerance[%d%d]' % (k // 3, k % 3), goal, cap=200, order=('core', 'nlsat'),
-                 table=lambda q: _table_all(q) + [('S0_%d' % j, flat(q.ax['S0'])[j]) for j in range(9)] + [('S1_%d' % j, flat(q.ax['S1'])[j]) for j in range(9)]
-                 + [('G_%d' % j, flat(q.ax['G'])[j]) for j in range(9)] + [('N_%d' % j, flat(q.ax['N0'])[j]) for j in range(9)])
+        ch.close('principal.stress_within_tolerance[%d%d]' % (k // 3, k % 3), goal, cap=120, order=('nlsat', 'core'), table=tab)
 
 
 # ------------------------------------------------------------------------------------------ Voce hardening (thorough tier)
@@ -1151,9 +1154,10 @@ def o8(h):
 
 
 DESIGNED_NOT_REGISTERED = [
-    ('O7 stress before/after commit on the plane-strain and full 3x3 rungs',
-     'the exact identity S_before - S_after = r(x) * d(eqps\')/d(dispGrad) and the closed form of that sensitivity stay unknown at 60 s (z3 core and nlsat) '
-     'already on the plane-strain block; registered for the principal frame only (O7b, thorough tier). The energy part of O7 is registered on all rungs.'),
+    ('O7 stress before/after commit (all rungs)',
+     'plane-strain block / full 3x3: the exact identity S_before - S_after = r(x) * d(eqps\')/d(dispGrad) and the closed form of that sensitivity stay unknown at 60 s '
+     '(z3 core and nlsat). Principal frame (o7b_not_registered in this module): identity 3-40 s, sensitivity closed form 30-40 s (nlsat), scalar closes 20-60 s in '
+     'isolation, but unknown at the same caps under machine load: no 5x headroom, so it is left out. The ENERGY part of O7 is registered on the plane and full rungs.'),
     ('O3 r(ub) >= 0 for Voce hardening over the whole parameter box',
      'false in real arithmetic: r(ub) = flow(ub) - flow(lb) - (3 - 2 c^2) mu (ub - lb) with c = binary64 sqrt(3/2) < sqrt(3/2); near saturation the hardening over '
      'the bracket is below the defect. Registered instead (O8): r(ub) >= -(3 - 2c^2) mu (ub - lb), r(ub) >= 0 iff hardening over the bracket >= defect, and a '
